@@ -150,11 +150,13 @@ impl<T, N: ArrayLength> Iterator for GenericArrayIter<T, N> {
         // First consume values prior to the nth.
         let next_index = self.index + cmp::min(n, self.len());
 
-        unsafe {
-            ptr::drop_in_place(self.array.get_unchecked_mut(self.index..next_index));
-        }
+        let index = mem::replace(&mut self.index, next_index);
 
-        self.index = next_index;
+        // The index is advanced first, so if an element's destructor panics,
+        // the skipped elements are not dropped again when the iterator itself is dropped.
+        unsafe {
+            ptr::drop_in_place(self.array.get_unchecked_mut(index..next_index));
+        }
 
         self.next()
     }
@@ -210,11 +212,12 @@ impl<T, N: ArrayLength> DoubleEndedIterator for GenericArrayIter<T, N> {
     fn nth_back(&mut self, n: usize) -> Option<T> {
         let next_back = self.index_back - cmp::min(n, self.len());
 
-        unsafe {
-            ptr::drop_in_place(self.array.get_unchecked_mut(next_back..self.index_back));
-        }
+        let index_back = mem::replace(&mut self.index_back, next_back);
 
-        self.index_back = next_back;
+        // Same as `nth`, move the index first so a panicking destructor can't cause a double-drop.
+        unsafe {
+            ptr::drop_in_place(self.array.get_unchecked_mut(next_back..index_back));
+        }
 
         self.next_back()
     }
